@@ -644,6 +644,10 @@ class ExprMixin(object):
                 for r in self.contains(st, TupleV(o.items), item):
                     yield r
                 return
+            if isinstance(o, Obj) and o.cls.name in ("SymMap", "SymValues"):
+                for r in self.symmap_contains(st, o, item):
+                    yield r
+                return
         for r in self.call_builtin("contains", st, [container, item], {}):
             yield r
 
